@@ -111,20 +111,20 @@ package nflog
 // C10 algebra (no code involved): proved once by the solver for all states and entries.
 //@ lemma nflog_lww_idempotent: forall d set[string], t arr[string]int, v arr[string]int, k string, ts int, exp int, id int, now int, now2 int ::
 //@     now2 >= now ==> !aAcc(aDom(d, t, k, ts, exp, now), aTs(d, t, k, ts, exp, now), k, ts, exp, now2)
-//@   props C10
+//@   props C10 C09
 //@ lemma nflog_lww_monotone: forall d set[string], t arr[string]int, k string, ts int, exp int, now int, k2 string ::
 //@     k2 in d ==> k2 in aDom(d, t, k, ts, exp, now) && aTs(d, t, k, ts, exp, now)[k2] >= t[k2]
-//@   props C10
+//@   props C10 C09
 //@ lemma nflog_lww_no_resurrection: forall d set[string], t arr[string]int, k string, ts int, exp int, now int ::
 //@     exp < now ==> aDom(d, t, k, ts, exp, now) == d && aTs(d, t, k, ts, exp, now) == t
-//@   props C10
+//@   props C10 C09
 //@ lemma nflog_lww_commutes: forall d set[string], t arr[string]int, v arr[string]int, k1 string, ts1 int, exp1 int, id1 int, k2 string, ts2 int, exp2 int, id2 int, now int ::
 //@     (k1 != k2 || ts1 != ts2) ==>
 //@        aDom(aDom(d, t, k1, ts1, exp1, now), aTs(d, t, k1, ts1, exp1, now), k2, ts2, exp2, now) == aDom(aDom(d, t, k2, ts2, exp2, now), aTs(d, t, k2, ts2, exp2, now), k1, ts1, exp1, now)
 //@     && aTs(aDom(d, t, k1, ts1, exp1, now), aTs(d, t, k1, ts1, exp1, now), k2, ts2, exp2, now) == aTs(aDom(d, t, k2, ts2, exp2, now), aTs(d, t, k2, ts2, exp2, now), k1, ts1, exp1, now)
 //@     && aVal(aDom(d, t, k1, ts1, exp1, now), aTs(d, t, k1, ts1, exp1, now), aVal(d, t, v, k1, ts1, exp1, id1, now), k2, ts2, exp2, id2, now)
 //@          == aVal(aDom(d, t, k2, ts2, exp2, now), aTs(d, t, k2, ts2, exp2, now), aVal(d, t, v, k2, ts2, exp2, id2, now), k1, ts1, exp1, id1, now)
-//@   props C10
+//@   props C10 C09
 //@ lemma nflog_lww_newest: forall d set[string], t arr[string]int, k string, ts int, exp int, now int ::
 //@     exp >= now ==> k in aDom(d, t, k, ts, exp, now) && aTs(d, t, k, ts, exp, now)[k] == ((k in d && t[k] >= ts) ? t[k] : ts)
-//@   props C10
+//@   props C10 C09
